@@ -776,7 +776,7 @@ def replay_case(pid, c):
     results = []
     for _ in range(2):
         st = Stats()
-        work_item(pid, (c.get("family", "REPLAY"), t0, share, True), st)
+        work_item(pid, (c.get("family", "REPLAY"), t0, share, M.size(t0) <= 40), st)     # (budget cuts are quadratic in the trace length)
         results.append(([v["why"] for v in st.violations], sorted(st.known)))
     print(f"replay {pid}: {M.show(t0) if M.size(t0) < 60 else str(M.size(t0)) + ' nodes'} (share={share})")
     tr = follow(A.build(t0, share))
